@@ -1,12 +1,13 @@
 """C15 Field-level processors change schema and rows in lockstep."""
 import re, copy, functools
 from common import *
+import rx
 from flowutil import *
 import dataflows as DF
 
 PROP = 'C15'
 PROPS_V = 'Props/C15.v'
-COQ_IMPORTS = ['Base.Str', 'Base.Value', 'Proc.RowOps', 'Proc.Fields']
+COQ_IMPORTS = ['Base.Str', 'Base.Value', 'Base.Regex', 'Proc.RowOps', 'Proc.Fields']
 RULE = ('cases = generated tables (0-6 rows; field names incl. regex metacharacters and names that are prefixes of each '
         'other) x one of select/delete/rename/add_field/add_computed_field/find_replace with generated patterns '
         '(regex on/off), operations (constant,sum,avg,min,max,multiply,join,format,callable) with nulls; non-trivial = '
@@ -312,7 +313,9 @@ def coq_term(case, out):
     err = out.get('error')
     try:
         if k in ('select', 'delete'):
-            pats = clist(['(tbl_match %s)' % tbl_for(case, p) for p in case['fields']])
+            # a pattern of the modelled regex fragment is matched by the Coq matcher itself (proved to decide the language
+            # of the expression); Python's re only supplies a table for patterns outside the fragment and for literal names
+            pats = clist([(rx.matcher_term(p) if case['regex'] else None) or '(tbl_match %s)' % tbl_for(case, p) for p in case['fields']])
             fn = 'select_names' if k == 'select' else 'delete_names'
             if err is not None:
                 return ('match select_schema %s %s with Err _ => true | Ok _ => false end' % (pats, names)) if k == 'select' else 'false'
